@@ -138,6 +138,14 @@ func (r *Recorder) Log(e Event) {
 	r.events = append(r.events, e)
 }
 
+// ResetLog drops everything logged so far (used after scenario setup).
+func (r *Recorder) ResetLog() {
+	r.mu.Lock()
+	defer r.mu.Unlock()
+	r.events = nil
+	r.seq = 0
+}
+
 func (r *Recorder) Events() []Event {
 	r.mu.Lock()
 	defer r.mu.Unlock()
